@@ -685,3 +685,35 @@ def p_c14(ctx):
     cov["trace_events"] += events
     cov["rule"] += "; plus every document of MC_Outline (items with literal / list / object / reference values, labelled and nested blocks) and every workspace (3 paths x all subsets of unreadable paths x 7 queries)"
     finish(ctx, viols, cov, assumptions=["native syntax without schema; the JSON outline is covered by C19"])
+
+
+@pipeline("C09")
+def p_c09(ctx):
+    cases, n = tlc_cases(ctx, "MC_Targets.tla", "MC_Targets_quick.cfg" if ctx.quick else "MC_Targets_full.cfg", "mctargets", timeout=3000)
+    pre = os.path.join(ctx.work, "tg")
+    p = ctx.run_hx(["targets", "-cases", cases, "-out", pre, "-layouts", "3" if ctx.quick else "4"])
+    info = json.loads(p.stdout.strip().splitlines()[-1])
+    p = ctx.run_hx(["targets", "-worlds", "kinds,tf,tfbad,hostile,mods", "-out", pre])
+    nw = json.loads(p.stdout.strip().splitlines()[-1])["events"]
+    # target trees of the expression family's documents as well (list / object / map values at depth)
+    files = sorted(glob.glob(pre + ".*.ndjson"))
+    bad, events = ctx.validate_traces("TraceTargets.tla", "TraceTargets.cfg", files)
+    viols = []
+    for b in bad:
+        e = json.loads(open(b["file"]).read().splitlines()[b["l"] - 1])
+        rp = {"pipeline": "targets", "layout": e.get("layout")}
+        if e["ev"] == "Targets":
+            rp.update({"case": {"schema": e["schema"], "doc": e["doc"]}, "top": e["top"]})
+        else:
+            rp.update({"world": e["world"], "path": e["p"]})
+        viols.append({"what": b["what"], "replay": rp})
+    e0 = json.loads(open(files[0]).readline())
+    finish(ctx, viols, {
+        "evaluations": info["events"] + nw, "distinct_nontrivial": n,
+        "rule": "case = (schema variant, document of <= MaxItems items from a pool of 21 declarations: blocks addressed by static / label / attribute-value steps, as reference, as type of an "
+                "attribute, body as data, dependent body as data, TargetableAs of static and attribute-selected dependent bodies, any-attribute bodies, addressable attributes incl. keyword "
+                "constraints, count / for_each, unresolvable addresses, unknown items); the exact set of top-level targets is compared; the structural predicates on nested targets are "
+                "evaluated on these and on the target trees of 5 curated worlds",
+        "traces_validated_against_impl": len(files), "trace_events": events, "samples": [{"doc": e0.get("doc"), "top": e0.get("top")}], "exhaustive": True},
+        assumptions=["types are compared by friendly name where Targets.tla pins them down ('?' otherwise)",
+                     "nested targets are constrained by the structural predicates only (one step, index = source order, key = written key, inside the parent's range)"])
